@@ -60,7 +60,7 @@ def expected(fields, present):
     return resolved, failed, circular
 
 
-def run_graph(order, fields, present, use_names):
+def run_graph(order, fields, present, use_names, wrap=None):
     schema = {}
     for f in order:
         spec = fields[f]
@@ -70,17 +70,28 @@ def run_graph(order, fields, present, use_names):
             name = "%s_%s" % (spec[0], "".join(spec[1]))
             schema[f] = {'default_setter': name if (use_names and name in pool.SETTER_NAMES) else counting_setter(name)}
     doc = {f: present[f] for f in order if f in present}
+    # the same graph inside a sub-document (a dict field, or a dict item of a list): resolved by a child validator
+    if wrap == 'dict':
+        schema, doc = {'sub': {'type': 'dict', 'schema': schema}}, {'sub': doc}
+    elif wrap == 'list':
+        schema, doc = {'rows': {'type': 'list', 'schema': {'type': 'dict', 'schema': schema}}}, {'rows': [{'zz': 1}, doc]}
+        schema['rows']['schema']['schema'] = dict(schema['rows']['schema']['schema'], zz={})
     v = pool.PoolValidator(schema)
     CALLS[0] = 0
     out = v.normalized(copy.deepcopy(doc), always_return_document=True)
     errs = v._errors
+    if wrap == 'dict':
+        out = out['sub']
+    elif wrap == 'list':
+        errs = [e for e in errs if tuple(e.document_path[:2]) == ('rows', 1)]
+        out = out['rows'][1]
     return schema, doc, out, errs, CALLS[0]
 
 
-def check_graph(order, fields, present, use_names=False):
+def check_graph(order, fields, present, use_names=False, wrap=None):
     n = len([f for f in fields if fields[f] is not None])
     try:
-        schema, doc, out, errs, calls = run_graph(order, fields, present, use_names)
+        schema, doc, out, errs, calls = run_graph(order, fields, present, use_names, wrap)
     except Exception as e:
         return "normalized() raised %r" % (e,), None
     resolved, failed, circular = expected(fields, present)
@@ -94,7 +105,7 @@ def check_graph(order, fields, present, use_names=False):
         circ = 'Circular' in str(e.info[0])
         if circ != (f in circular):
             return "field %r: circular-dependency message %r but expected %s" % (f, circ, "circular" if f in circular else "own failure"), (schema, doc)
-    if calls > n * (n + 1) + 1:
+    if wrap != 'list' and calls > n * (n + 1) + 1:      # (in a list the other rows run their setters too)
         return "%d setter calls for %d setters (bound n(n+1)+1)" % (calls, n), (schema, doc)
     return None, (schema, doc)
 
@@ -122,11 +133,16 @@ def run(ctx):
 
     def one(order, fields, present, tag):
         nonlocal cases
-        d, sd = check_graph(order, fields, present, use_names=rng.random() < 0.3)
+        wrap = rng.choice([None, None, None, None, None, None, 'dict', 'list'])
+        d, sd = check_graph(order, fields, present, use_names=rng.random() < 0.3, wrap=wrap)
         cases += 1
         dist[tag] += 1
+        if wrap:
+            dist["graph_in_sub_document_" + wrap] += 1
+            if d:
+                d = "(graph inside a %s sub-document) " % wrap + d
         if d:
-            violations.append({"signature": "lfp:" + d.split(" ")[0], "what": d,
+            violations.append({"signature": "lfp:" + d.replace("(graph inside a dict sub-document) ", "").replace("(graph inside a list sub-document) ", "").split(" ")[0], "what": d,
                                "replay": {"order": list(order), "fields": {k: (list(v[0:1]) + [list(v[1])] if v else None) for k, v in fields.items()},
                                           "present": present}})
         if sd and len(model_lines) < (20000 if thorough else 1500 * ctx.get('scale', 1)) and rng.random() < 0.2:
